@@ -247,7 +247,9 @@ def rule_selectors(ctx):
     ctx.check(n_ok >= 3 and not bad, R, "construction",
               "on all %d successful construction paths: body-due == method in {POST, PUT, PATCH}; expect-100-pending == "
               "request has Expect: 100-continue (independent of the method)" % n_ok, loc=body_loc(new), detail=sorted(set(bad))[:5])
-    # store sites
+    # store sites: where the store is written does not matter (it may sit in a helper); which public calls can reach it does
+    api = [b for b in public_api(prog) if (b.impl_self or "").startswith("client::flow::Flow<")]
+    reach_of = {a_.short: set(x.id for x in reachable_from(prog, [a_])) for a_ in api}
     for field, allowed in sorted(SELECTOR_STORES.items()):
         seen = {}
         for b in prog.nonderived_bodies():
@@ -255,26 +257,30 @@ def rule_selectors(ctx):
                 for st_ in blk["stmts"]:
                     if st_["k"] != "assign":
                         continue
+                    vals = []
                     pr = st_["place"].get("proj", [])
                     if pr and pr[-1].get("k") == "field" and pr[-1].get("name") == field:
                         op = st_["rv"].get("op", {})
-                        val = int(op["int"]) if st_["rv"]["k"] == "use" and op.get("k") == "const" and "int" in op else None
-                        seen.setdefault(b.short, set()).add(val)
+                        vals.append(int(op["int"]) if st_["rv"]["k"] == "use" and op.get("k") == "const" and "int" in op else None)
                     rv = st_["rv"]
                     if rv["k"] == "ref" and rv.get("mut"):
                         pr2 = rv["place"].get("proj", [])
                         if pr2 and pr2[-1].get("k") == "field" and pr2[-1].get("name") == field:
-                            seen.setdefault(b.short, set()).add("&mut")
+                            vals.append("&mut")
+                    for v_ in vals:
+                        roots = sorted(a_ for a_, ids in reach_of.items() if b.id in ids)
+                        for r_ in roots:
+                            seen.setdefault(r_, set()).add(v_)
         badst = []
         for fn, vals in seen.items():
             if fn not in allowed:
-                badst.append("%s stores %s" % (fn, field))
+                badst.append("%s can store %s" % (fn, field))
             elif not vals <= allowed[fn]:
                 badst.append("%s stores %s := %s (allowed %s)" % (fn, field, sorted(map(str, vals)), sorted(allowed[fn])))
         for fn in allowed:
             if fn not in seen:
                 badst.append("%s no longer stores %s" % (fn, field))
-        ctx.check(not badst, R, "stores:" + field, "`%s` is stored after construction only by %s, with constants" % (
+        ctx.check(not badst, R, "stores:" + field, "after construction `%s` is stored only in the course of %s, with constants (the store may sit in a helper)" % (
             field, ", ".join("%s:=%s" % (f.split("::")[-1], sorted(v)) for f, v in sorted(allowed.items()))), detail=badst)
 
 
